@@ -2,6 +2,7 @@ package exec
 
 import (
 	"fmt"
+	"sort"
 
 	zerr "github.com/DemoHn/Zn/pkg/error"
 	"github.com/DemoHn/Zn/pkg/io"
@@ -156,7 +157,15 @@ func ExecVarInputText(source string) (r.ElementMap, error) {
 func ExecExpressionInputText(exprStrMap map[string]string) (r.ElementMap, error) {
 	vm := r.InitVM(globalValues)
 	result := make(map[string]r.Element)
-	for k, v := range exprStrMap {
+	// evaluate in a fixed (alphabetical) order: which error is reported must not
+	// depend on the iteration order of the map
+	exprNames := make([]string, 0, len(exprStrMap))
+	for k := range exprStrMap {
+		exprNames = append(exprNames, k)
+	}
+	sort.Strings(exprNames)
+	for _, k := range exprNames {
+		v := exprStrMap[k]
 		evalResult, err := evalExpressionText(vm, v)
 		if err != nil {
 			return nil, err
